@@ -265,12 +265,12 @@ func runC15(p *core.Prog, r *core.Report, tier string) {
 				// period - window on one side: the ticker's equality
 				if rel == "==" {
 					nPrep++
-					r.Hold("C15.h", fmt.Sprintf("%s|preparation-window#%d", core.FnKey(f), nPrep), p.Pos(ifi.Pos()), "the ticker prepares at distance == window")
+					r.Hold("C15.h", fmt.Sprintf("%s|preparation-window#%d", core.FnKey(f), nPrep), p.Pos(core.IfPos(ifi)), "the ticker prepares at distance == window")
 				}
 				return
 			}
 			nPrep++
-			r.Check(rel == "<=" || rel == "==", "C15.h", fmt.Sprintf("%s|preparation-window#%d", core.FnKey(f), nPrep), p.Pos(ifi.Pos()), "distance "+rel+" window: the boundary epoch is covered",
+			r.Check(rel == "<=" || rel == "==", "C15.h", fmt.Sprintf("%s|preparation-window#%d", core.FnKey(f), nPrep), p.Pos(core.IfPos(ifi)), "distance "+rel+" window: the boundary epoch is covered",
 				"the distance to the next period is compared with the preparation window by '"+rel+"': a start exactly at the boundary is covered neither here nor by the ticker (which fires at distance == window, one epoch later), so the next period gets no jobs")
 		})
 	}
